@@ -2,6 +2,7 @@
 import numpy as np
 
 from harness import monitor
+from harness import enums
 
 
 def _mods():
@@ -20,11 +21,11 @@ def call(P, spec, budget=None, wall=20):
         P = np.asarray(P).astype(np.int64)
     kw = {}
     if "distance" in spec:
-        kw["distance"] = rdp.Distance(spec["distance"])
+        kw["distance"] = enums.pick(rdp.Distance, spec["distance"])
     if "cost" in spec:
-        kw["cost"] = metrics.Metrics(spec["cost"])
+        kw["cost"] = enums.pick(metrics.Metrics, spec["cost"])
     if "order" in spec:
-        kw["order"] = rdp.Order(spec["order"])
+        kw["order"] = enums.pick(rdp.Order, spec["order"])
     if f == "rdp":
         args = (P, spec["t"])
     elif f == "grdp":
@@ -98,7 +99,7 @@ def harvest_thresholds(P, cost, rng, k=3):
         b = rng.randint(a + 2, n - 1)
         pt = P[a:b + 1]
         try:
-            v = float(rdp.compute_cost_coef(pt, lf.linear_fit_points(pt), metrics.Metrics(cost)))
+            v = float(rdp.compute_cost_coef(pt, lf.linear_fit_points(pt), enums.pick(metrics.Metrics, cost)))
         except Exception:
             continue
         if np.isfinite(v) and v > 0 and (cost != "r2" or v <= 1):
